@@ -402,7 +402,9 @@ class WorldBase:
         raise NotImplementedError
 
     def on_instance(self, inst: Instance) -> None:
-        pass
+        # how many bytes the server had written on each connection when this instance was created
+        inst.out_len = {k: len(rec.out) for k, rec in self.conns.items()}
+        inst.seq = len(self.driver.fired)
 
     # --- gates
     async def wait_gate(self, inst: Instance, name: str) -> None:
